@@ -40,7 +40,18 @@ func verifLetters(name string, n, k int) (alphabet.Letters, []int) {
 	ls := make(alphabet.Letters, n)
 	ix := make([]int, n)
 	for i := range ls {
-		b := verifByte(name+string(rune('0'+i)), 'a', byte('a'+k-1))
+		var b byte
+		if verifParam("split") == 2 {
+			// fixed letters (a scrambled pattern over the alphabet), symbolic scores only: longer
+			// sequences, every table stride and border exercised
+			off := 0
+			if name == "q" {
+				off = 1
+			}
+			b = byte('a' + (i*i+i/2+off)%k)
+		} else {
+			b = verifByte(name+string(rune('0'+i)), 'a', byte('a'+k-1))
+		}
 		if verifParam("split") == 1 {
 			// case-split the letter (each value is explored); scores stay symbolic
 			b = byte(verifConcrete(int(b)))
